@@ -142,9 +142,10 @@ func classSymbols() []string {
 func init() {
 	var cuts []string
 	fw.Register(&fw.Check{
-		ID:        "C08",
-		QuickS:    60,
-		ThoroughS: 600,
+		ID:              "C08",
+		PanicOutOfScope: true,
+		QuickS:          60,
+		ThoroughS:       600,
 		Rule: "every string over the SQL byte / fragment / token-class alphabets up to the completed level and every fixture cut: false => empty fingerprint; true => 1..5 class characters, comment class only last, member of the blacklist (real look-up), " +
 			"equal to the fingerprint of the first firing reachable context evaluated on a fresh state, and one of the fingerprints the reference algorithm (refsql) gives for the six readings of the input; non-trivial = verdict true; distinct_outcomes = distinct returned fingerprints",
 		Assumptions: []string{"per-context results come from the build-tagged accessor running sqliFingerprint+checkFingerprint on a fresh state"},
